@@ -290,10 +290,38 @@ func judgeTrace(lines []string, head []string) (vs []hxlib.Violation) {
 	add := func(i int, sig, what string) {
 		vs = append(vs, hxlib.Violation{Sig: sig, What: what, Lines: append(append([]string{}, head...), lines[:i+1]...)})
 	}
+	var sc concScenario
+	if len(head) > 0 {
+		_ = json.Unmarshal([]byte(strings.TrimPrefix(head[0], "conc ")), &sc)
+	}
+	acked := map[string]bool{}    // write operation IDs answered with success
+	refused := map[string]bool{}  // subscription operation IDs answered with error
+	notified := map[string]bool{} // subOp + "|" + key
+	defer func() {
+		// completeness of notifications where the scenario guarantees registration before the write
+		for _, e := range sc.Expect {
+			sub, wr, key := string(unhx(e.Sub)), string(unhx(e.Wr)), string(unhx(e.Key))
+			if acked[wr] && !refused[sub] && !notified[sub+"|"+key] && len(vs) == 0 {
+				vs = append(vs, hxlib.Violation{Sig: "C13:missing-notification:trace", What: fmt.Sprintf("the write %q of %q was acknowledged while subscription %q was registered, but no upd/new notification for that key was sent", wr, key, sub), Lines: append(append([]string{}, head...), lines...)})
+				return
+			}
+		}
+	}()
 	for i, l := range lines {
 		f := strings.Fields(l)
 		if len(f) < 2 || f[0] != "t" {
 			continue
+		}
+		if f[1] == "rep" {
+			r := parseReply(unhx(f[2]))
+			switch r.Type {
+			case "success":
+				acked[r.Op] = true
+			case "error":
+				refused[r.Op] = true
+			case "upd", "new":
+				notified[r.Op+"|"+r.Key] = true
+			}
 		}
 		switch f[1] {
 		case "req":
